@@ -84,7 +84,15 @@ def registryLine (family : String) (a : List String) (impl : String) : Verdict :
         | [x, y] => (String.ofList ((unhex x).map Char.ofNat), String.ofList ((unhex y).map Char.ofNat))
         | _ => ("", "")
     let model := resU (assertOperations parsed)
-    mk false model impl []
+    -- independent of `danglingAsks`: an ask is dangling iff no later hop offers it (Halo.Props.C13.mem_danglingAsks)
+    let idx := List.range parsed.length
+    let dangling := (idx.filterMap fun i =>
+        let x := (parsed.getD i ("", "")).2
+        if (idx.filter (fun j => decide (i < j))).all (fun j => (parsed.getD j ("", "")).1 != x) then some x else none).eraseDups
+    let oracle := if impl == "ok" then
+        chk "C13" s!"a route with {dangling.length} dangling output assets was accepted" (dangling.length == 1)
+      else []
+    mk false model impl oracle
   | _, _ => { diverge := some s!"unknown-registry-line {family}" }
 
 end Halo.Driver
